@@ -644,6 +644,7 @@ static VF_UNUSED void *vf_alloc(struct vf_ctx *c, size_t n)
 		vf_puts(c, "# alloc fault injected at request ");
 		vf_putl(c, c->alloc_count);
 		vf_put(c, "\n", 1);
+		vf_flush(c);	/* (the scanner may crash on the NULL before anything else is written) */
 		return NULL;
 	}
 	p = malloc(n ? n : 1);
@@ -675,6 +676,7 @@ static VF_UNUSED void *vf_realloc(struct vf_ctx *c, void *p, size_t n)
 		vf_puts(c, "# alloc fault injected at request ");
 		vf_putl(c, c->alloc_count);
 		vf_put(c, "\n", 1);
+		vf_flush(c);	/* (the scanner may crash on the NULL before anything else is written) */
 		return NULL;
 	}
 	c->nrealloc++;
